@@ -298,19 +298,50 @@ each (all 289 pairs), observed through for_url on three probe hosts and both sch
             Case::Env { vars, np_lower, np_upper } => {
                 let npl = NP_VALUES[*np_lower as usize % NP_VALUES.len()];
                 let npu = NP_VALUES[*np_upper as usize % NP_VALUES.len()];
+                // the environment block lists variables in the order they were created: both orders (lower-case spelling first,
+                // upper-case spelling first) are driven, chosen by a parity of the case
+                let upper_first = (vars.iter().map(|v| *v as u32).sum::<u32>() + *np_lower as u32 + *np_upper as u32) % 2 == 1;
+                for v in VARS.iter().chain(["no_proxy", "NO_PROXY"].iter()) {
+                    std::env::remove_var(v);
+                }
+                let mut assignments: Vec<(&str, String)> = vec![];
                 for (i, v) in VARS.iter().enumerate() {
-                    match var_value(i, vars[i] % NVALS) {
-                        Some(val) => std::env::set_var(v, val),
-                        None => std::env::remove_var(v),
+                    if let Some(val) = var_value(i, vars[i] % NVALS) {
+                        assignments.push((v, val.to_string()));
                     }
                 }
-                match npl {
-                    Some(v) => std::env::set_var("no_proxy", v),
-                    None => std::env::remove_var("no_proxy"),
+                if let Some(v) = npl {
+                    assignments.push(("no_proxy", v.to_string()));
                 }
-                match npu {
-                    Some(v) => std::env::set_var("NO_PROXY", v),
-                    None => std::env::remove_var("NO_PROXY"),
+                if let Some(v) = npu {
+                    assignments.push(("NO_PROXY", v.to_string()));
+                }
+                assignments.sort_by_key(|(name, _)| name.chars().next().unwrap().is_ascii_uppercase() != upper_first);
+                for (name, val) in &assignments {
+                    std::env::set_var(name, val);
+                }
+                ctx.label_if(upper_first, "env:upper-case-spelling-created-first");
+                // settings built explicitly do not look at the environment
+                {
+                    let px = url::Url::parse("http://explicit.test:1/").unwrap();
+                    let built = [
+                        ("ProxySettings::builder()", attohttpc::ProxySettings::builder().http_proxy(px.clone()).build()),
+                        ("ProxySettingsBuilder::new()", attohttpc::ProxySettingsBuilder::new().http_proxy(px.clone()).build()),
+                        ("ProxySettingsBuilder::default()", attohttpc::ProxySettingsBuilder::default().http_proxy(px.clone()).build()),
+                    ];
+                    for (how, b) in &built {
+                        let h = b.for_url(&url::Url::parse("http://c.example/").unwrap()).map(|u| u.to_string());
+                        let hs = b.for_url(&url::Url::parse("https://c.example/").unwrap()).map(|u| u.to_string());
+                        if h.as_deref() != Some(px.as_str()) || hs.is_some() {
+                            for v in VARS.iter().chain(["no_proxy", "NO_PROXY"].iter()) {
+                                std::env::remove_var(v);
+                            }
+                            return Outcome::fail(
+                                "C11:builder-inherits-environment",
+                                format!("{how}.http_proxy(P).build(): for_url(http) = {h:?}, for_url(https) = {hs:?} with the environment {assignments:?}"),
+                            );
+                        }
+                    }
                 }
                 let settings = attohttpc::ProxySettings::from_env();
                 for v in VARS.iter().chain(["no_proxy", "NO_PROXY"].iter()) {
